@@ -147,3 +147,44 @@ def check(res, facts, shapes, targets, label):
             rule.bad(key, "anchor missing: " + msg)
         else:
             rule.noverdict(key, msg, loc)
+
+
+def check_width(res, facts):
+    """BitIteratorBE::new / BitIteratorLE::new over n limbs yield exactly 64 n bits -- leading zero limbs included -- in
+    most- resp. least-significant-first order.  Consumers pair two such streams by position (glv_mul_affine zips the bits of
+    k1 and k2; to_bits_be promises full width), so a constructor that trims insignificant limbs misaligns them."""
+    rule = res.rule("R-BITITER.width", "BitIteratorBE::new / BitIteratorLE::new over n limbs yield exactly the 64 n bits of the integer, zero limbs included (streams of two scalars are zipped by position in GLV) [evaluation of the MIR on concrete limb vectors]", 0)
+    ev = _Eval(facts, "ws")
+    for nm, msb_first in (("BitIteratorBE", True), ("BitIteratorLE", False)):
+        key = "ark_ff|%s::new" % nm
+        fs = [f for f in facts.fns(unit="ws", crate="ark_ff") if f.kind != "Closure" and f.name == "new" and (f.self_head or "").endswith("bits::" + nm)]
+        nx = overrides(facts, "ws", "ark_ff", "bits::" + nm).get("next")
+        if not fs or nx is None:
+            rule.bad(key, "anchor missing")
+            continue
+        verdict = None
+        for limbs in ((5, 0), (0, 0), (0x8000000000000001, 7, 0), (3,)):
+            ex = SX.Engine(facts, "ws", c07_dft._models(c08_arith._first), max_paths=8, max_depth=8, inline_limit=600, max_visits=100000)
+            ex.strict_flow = True
+            ps = [p for p in ex.run(fs[0], [SX.Ref(SX.Cell(SX.Obj(adt="array", fields=dict(enumerate(limbs)))))]) if "panic" not in p.flags]
+            if len(ps) != 1 or ps[0].flags or not isinstance(ps[0].ret, SX.Obj):
+                verdict = ("noverdict", "constructor not evaluable on %d limbs" % len(limbs))
+                break
+            seq = ev.drain(nx, ps[0].ret, 64 * len(limbs) + 2)
+            if seq is None:
+                verdict = ("noverdict", "`next` not evaluable")
+                break
+            value = sum(l << (64 * i) for i, l in enumerate(limbs))
+            bits = [bool((value >> i) & 1) for i in range(64 * len(limbs))]
+            want = [("Some", b) for b in (reversed(bits) if msb_first else bits)] + ["None"]
+            if seq != want:
+                got_n = len(seq) - 1 if seq and seq[-1] == "None" else len(seq)
+                verdict = ("bad", "over the limbs %s the iterator yields %d bits%s; expected all %d bits of the %d-limb integer, %s-significant first" % (
+                    [hex(l) for l in limbs], got_n, "" if got_n != 64 * len(limbs) else " (wrong values)", 64 * len(limbs), len(limbs), "most" if msb_first else "least"))
+                break
+        if verdict is None:
+            rule.ok(key, "4 limb vectors (zero top limbs, all-zero, single limb): exactly 64 n bits in order", fs[0].loc)
+        elif verdict[0] == "bad":
+            rule.bad(key, verdict[1], fs[0].loc)
+        else:
+            rule.noverdict(key, verdict[1], fs[0].loc)
